@@ -280,7 +280,7 @@ func (c *Chain) getChainHealth() ChainHealth {
 
 	return ChainHealth{
 		LatestFinalizedRound:        c.GetLatestFinalizedBlock().Round,
-		DeterministicFinalizedRound: c.LatestDeterministicBlock.Round,
+		DeterministicFinalizedRound: c.GetLatestDeterministicBlock().Round,
 		Timeouts:                    c.RoundTimeoutsCount,
 		RoundTimeoutCount:           rtoc,
 		RelatedMB:                   mb.StartingRound,
